@@ -122,7 +122,7 @@ def main():
             return None
         s["pred"]["sv2"][0] += 1
         return s
-    scenrun.self_test(rep, scns, evaluate, _mut, "leading squared singular value + 1 unit")
+    scenrun.self_test(rep, scns, evaluate, _mut, "leading squared singular value + 1 unit", tries=4000)
     scenrun.report(rep, findings, TAGS)
     rep.exhaustive = True
     rep.extra["rule"] = ("every configuration of XWorldSingle within the tier's constants is emitted by TLC with its exact prediction and "
